@@ -9,9 +9,20 @@ conjunction over all ids of `SubIdxAt` plus key-uniqueness, so each operation ne
 mechanical agreement off `j`, (2) `SubIdxAt s' j`, (3) uniqueness of keys (`nodup_set/erase`).
 Operations that do not touch the thirteen tables use `SubIdx.of_view`.
 -/
+set_option linter.unusedSimpArgs false
+set_option linter.unusedVariables false
+set_option linter.unnecessarySeqFocus false
+set_option linter.unusedTactic false
+set_option linter.unreachableTactic false
+
 namespace Hub.Model
 open Hub.SDK
 open Hub.Generated (Status AmountForBytes GetProportionOfCoin Gigabyte)
+
+/-- Key uniqueness after a chain of `set`/`erase` updates. -/
+macro "nodup_tac" : tactic =>
+  `(tactic| (refine ⟨?_, ?_, ?_, ?_, ?_, ?_, ?_, ?_, ?_, ?_, ?_⟩ <;>
+      (repeat' first | assumption | apply Tbl.nodup_set | apply Tbl.nodup_erase)))
 
 /-! ### the part of the state `SubIdx` reads -/
 
@@ -32,6 +43,19 @@ structure SubView where
 def subView (s : State) : SubView :=
   ⟨s.subs, s.subQ, s.subForAcc, s.subForNode, s.subForPlan, s.allocs, s.payouts, s.payQ, s.payForAcc, s.payForNode,
    s.payForAccNode, s.subCount⟩
+
+@[simp] theorem subView_subs (s : State) : (subView s).subs = s.subs := rfl
+@[simp] theorem subView_subQ (s : State) : (subView s).subQ = s.subQ := rfl
+@[simp] theorem subView_subForAcc (s : State) : (subView s).subForAcc = s.subForAcc := rfl
+@[simp] theorem subView_subForNode (s : State) : (subView s).subForNode = s.subForNode := rfl
+@[simp] theorem subView_subForPlan (s : State) : (subView s).subForPlan = s.subForPlan := rfl
+@[simp] theorem subView_allocs (s : State) : (subView s).allocs = s.allocs := rfl
+@[simp] theorem subView_payouts (s : State) : (subView s).payouts = s.payouts := rfl
+@[simp] theorem subView_payQ (s : State) : (subView s).payQ = s.payQ := rfl
+@[simp] theorem subView_payForAcc (s : State) : (subView s).payForAcc = s.payForAcc := rfl
+@[simp] theorem subView_payForNode (s : State) : (subView s).payForNode = s.payForNode := rfl
+@[simp] theorem subView_payForAccNode (s : State) : (subView s).payForAccNode = s.payForAccNode := rfl
+@[simp] theorem subView_subCount (s : State) : (subView s).subCount = s.subCount := rfl
 
 theorem SubIdx.of_view {s s' : State} (h : subView s' = subView s) (hi : SubIdx s) : SubIdx s' := by
   have e1 : s'.subs = s.subs := congrArg SubView.subs h
@@ -255,6 +279,305 @@ theorem createAlloc_subIdx {s : State} {sub : Sub} {a : Alloc} (hf : Fresh s sub
     | plan pid d =>
       constructor <;> intros <;>
         simp_all [Tbl.has_set, Tbl.get_set, isHourly, isPlanSub, Sub.hourlyOn]
-  · sorry
+  · obtain ⟨n1, n2, n3, n4, n5, n6, n7, n8, n9, n10, n11⟩ := hi.nodup
+    unfold setAllocation insertSub
+    cases sub.kind <;> nodup_tac
+
+theorem createPayout_subIdx {s : State} {sub : Sub} {p : Payout} (hf : Fresh s sub.id) (hi : SubIdx s)
+    {gb hr : Int} {dep : Coin} (hk : sub.kind = .node p.node gb hr dep) (hr0 : hr ≠ 0) (hst : sub.status = .StatusActive)
+    (hp : p.id = sub.id) (hpa : p.addr = sub.addr) (hh : 0 < p.hours) :
+    SubIdx (insertPayout (insertSub s sub) p) := by
+  refine SubIdx.local sub.id hi ?_ ?_ ?_
+  · intro i hne
+    unfold insertPayout insertSub
+    rw [hk]
+    constructor <;> intros <;> simp [emit, Tbl.has_set, Tbl.get_set, hp, hne, Ne.symm hne]
+  · have f1 := hf.subs; have f2 := hf.subQ; have f3 := hf.subForAcc; have f4 := hf.subForNode; have f5 := hf.subForPlan
+    have f6 := hf.allocs; have f7 := hf.payouts; have f8 := hf.payQ; have f9 := hf.payForAcc; have f10 := hf.payForNode
+    have f11 := hf.payForAccNode
+    have f6' : ∀ a, s.allocs.has (sub.id, a) = false := fun a => Tbl.has_false_of_get (f6 a)
+    have f7' : s.payouts.has sub.id = false := Tbl.has_false_of_get f7
+    unfold insertPayout insertSub
+    rw [hk]
+    constructor <;> intros <;>
+      simp_all [emit, Tbl.has_set, Tbl.get_set, isHourly, isPlanSub, Sub.hourlyOn] <;> omega
+  · obtain ⟨n1, n2, n3, n4, n5, n6, n7, n8, n9, n10, n11⟩ := hi.nodup
+    unfold insertPayout insertSub
+    rw [hk]
+    nodup_tac
+
+theorem createNodeSubGB_subIdx {s : State} {acc node : Addr} {n : Node} {gb : Int} {denom : Denom} {r : State × Sub}
+    (h : createNodeSubGB s acc node n gb denom = .ok r) (hc : CountInv s) (hi : SubIdx s) : SubIdx r.1 := by
+  unfold createNodeSubGB at h
+  simp only [bind_eq_ok, pure_eq_ok, orReject_eq_ok] at h
+  obtain ⟨price, _, bytes, _, amt, _, dep, _, s1, h1, granted, _, rfl⟩ := h
+  have hfr := addDeposit_frame h1
+  have key := createAlloc_subIdx (s := s)
+    (sub := { id := s.subCount.getD 0 + 1, addr := acc, inactiveAt := s.time + 90 * day, status := .StatusActive,
+              statusAt := s.time, kind := .node node gb 0 dep })
+    (a := { id := s.subCount.getD 0 + 1, addr := acc, granted := granted, used := 0 }) hc.fresh hi (by simp [isHourly]) rfl rfl
+  refine SubIdx.of_view ?_ key
+  rw [hfr.eq]; rfl
+
+theorem createNodeSubHr_subIdx {s : State} {acc node : Addr} {n : Node} {hr : Int} {denom : Denom} {r : State × Sub}
+    (h : createNodeSubHr s acc node n hr denom = .ok r) (h0 : 0 ≤ hr) (hc : CountInv s) (hi : SubIdx s) : SubIdx r.1 := by
+  unfold createNodeSubHr at h
+  simp only [bind_eq_ok, pure_eq_ok, orReject_eq_ok] at h
+  obtain ⟨price, _, amt, _, dep, _, s1, h1, pa, hq, hourly, _, rfl⟩ := h
+  have hne : hr ≠ 0 := by
+    intro e; subst e; simp [SInt.quo, gopanic] at hq
+  have hfr := addDeposit_frame h1
+  have key := createPayout_subIdx (s := s)
+    (sub := { id := s.subCount.getD 0 + 1, addr := acc, inactiveAt := s.time + hr * hour, status := .StatusActive,
+              statusAt := s.time, kind := .node node 0 hr dep })
+    (p := { id := s.subCount.getD 0 + 1, addr := acc, node := node, hours := hr, price := hourly, nextAt := s.time })
+    hc.fresh hi rfl hne rfl rfl rfl (by show 0 < hr; omega)
+  refine SubIdx.of_view ?_ key
+  rw [hfr.eq]; rfl
+
+theorem nodeSubscribe_subIdx {s s' : State} {frm node : Addr} {gb hr : Int} {denom : Denom}
+    (h : nodeSubscribe s frm node gb hr denom = .ok s') (h0 : 0 ≤ hr) (hc : CountInv s) (hi : SubIdx s) : SubIdx s' := by
+  unfold nodeSubscribe createSubscriptionForNode at h
+  simp only [bind_eq_ok, pure_eq_ok, require_eq_ok, orReject_eq_ok] at h
+  obtain ⟨_, _, _, _, r, ⟨n, _, _, _, hr'⟩, rfl⟩ := h
+  refine SubIdx.of_view (s := r.1) rfl ?_
+  split at hr'
+  · exact createNodeSubGB_subIdx hr' hc hi
+  · exact createNodeSubHr_subIdx hr' h0 hc hi
+
+theorem planSubscribe_subIdx {s s' : State} {frm : Addr} {id : Nat} {denom : Denom}
+    (h : planSubscribe s frm id denom = .ok s') (hc : CountInv s) (hi : SubIdx s) : SubIdx s' := by
+  unfold planSubscribe createSubscriptionForPlan at h
+  simp only [bind_eq_ok, pure_eq_ok, require_eq_ok, requireP_eq_ok, orReject_eq_ok] at h
+  obtain ⟨r, ⟨plan, hplan, _, _, price, _, reward, _, s1, h1, payAmt, _, _, _, s2, h2, granted, _, rfl⟩, rfl⟩ := h
+  have hfr := (sendCoinFromAccountToModule_frame h1).trans (sendCoin_frame h2)
+  have key := createAlloc_subIdx (s := s)
+    (sub := { id := s.subCount.getD 0 + 1, addr := frm, inactiveAt := s.time + plan.dur, status := .StatusActive,
+              statusAt := s.time, kind := .plan plan.id price.denom })
+    (a := { id := s.subCount.getD 0 + 1, addr := frm, granted := granted, used := 0 }) hc.fresh hi (by simp [isHourly]) rfl rfl
+  refine SubIdx.of_view ?_ key
+  rw [hfr.eq]; rfl
+
+/-! ### active → inactive-pending (`MsgCancel`, the expiry branch of EndBlock) -/
+
+/-- Only session records, the session queue and events differ. -/
+def SessFrame (s s' : State) : Prop :=
+  s' = { s with sessions := s'.sessions, sessQ := s'.sessQ, events := s'.events }
+
+theorem SessFrame.refl (s : State) : SessFrame s s := rfl
+
+theorem SessFrame.trans {a b c : State} (h1 : SessFrame a b) (h2 : SessFrame b c) : SessFrame a c := by
+  unfold SessFrame at *
+  rw [h2, h1]
+
+theorem sessionToPending_frame (s : State) (x : Session) : SessFrame s (sessionToPending s x) := rfl
+
+theorem subscriptionInactivePendingHook_frame {s s' : State} {id : Nat}
+    (h : subscriptionInactivePendingHook s id = .ok s') : SessFrame s s' := by
+  unfold subscriptionInactivePendingHook at h
+  refine foldlM_inv (SessFrame s) _ ?_ _ s s' h (SessFrame.refl s)
+  intro s0 sid s1 h1 hp
+  simp only [bind_eq_ok, pure_eq_ok, orPanic_eq_ok] at h1
+  obtain ⟨x, _, rfl⟩ := h1
+  split
+  · exact hp.trans (sessionToPending_frame s0 x)
+  · exact hp
+
+
+/-! ### the same, over the view (small terms: twelve fields instead of the whole state) -/
+
+structure SubIdxAtV (v : SubView) (i : Nat) : Prop where
+  q : ∀ t, v.subQ.has (t, i) = true ↔ ∃ x, v.subs.get i = some x ∧ x.inactiveAt = t
+  node : ∀ n, v.subForNode.has (n, i) = true ↔ ∃ x gb hr dep, v.subs.get i = some x ∧ x.kind = .node n gb hr dep
+  plan : ∀ p, v.subForPlan.has (p, i) = true ↔ ∃ x d, v.subs.get i = some x ∧ x.kind = .plan p d
+  acc : ∀ a, v.subForAcc.has (a, i) = true ↔ ∃ x, v.subs.get i = some x ∧ (x.addr = a ∨ v.allocs.has (i, a) = true)
+  allocSub : ∀ a, v.allocs.has (i, a) = true → v.subs.has i = true
+  ownerAlloc : ∀ x, v.subs.get i = some x → isHourly x = false → v.allocs.has (i, x.addr) = true
+  hourlyNoAlloc : ∀ x a, v.subs.get i = some x → isHourly x = true → v.allocs.has (i, a) = false
+  nodeSubAlloc : ∀ x a, v.subs.get i = some x → isPlanSub x = false → v.allocs.has (i, a) = true → a = x.addr
+  payout : v.payouts.has i = true ↔ ∃ x, v.subs.get i = some x ∧ isHourly x = true
+  payoutRec : ∀ p x, v.payouts.get i = some p → v.subs.get i = some x → x.hourlyOn p.addr p.node ∧ 0 ≤ p.hours
+  payAcc : ∀ a, v.payForAcc.has (a, i) = true ↔ ∃ p, v.payouts.get i = some p ∧ p.addr = a
+  payNode : ∀ n, v.payForNode.has (n, i) = true ↔ ∃ p, v.payouts.get i = some p ∧ p.node = n
+  lease : ∀ a n, v.payForAccNode.has (a, n, i) = true ↔
+            ∃ p x, v.payouts.get i = some p ∧ p.addr = a ∧ p.node = n ∧ v.subs.get i = some x ∧ x.status = .StatusActive
+  payQ : ∀ t, v.payQ.has (t, i) = true ↔
+            ∃ p x, v.payouts.get i = some p ∧ p.nextAt = t ∧ 0 < p.hours ∧ v.subs.get i = some x ∧ x.status = .StatusActive
+
+def SubNodupV (v : SubView) : Prop :=
+  Tbl.Nodup v.subs ∧ Tbl.Nodup v.subQ ∧ Tbl.Nodup v.subForAcc ∧ Tbl.Nodup v.subForNode ∧ Tbl.Nodup v.subForPlan ∧
+  Tbl.Nodup v.allocs ∧ Tbl.Nodup v.payouts ∧ Tbl.Nodup v.payQ ∧ Tbl.Nodup v.payForAcc ∧ Tbl.Nodup v.payForNode ∧
+  Tbl.Nodup v.payForAccNode
+
+/-- `SubIdx` of any state with this view. -/
+structure SubIdxV (v : SubView) : Prop where
+  ids : ∀ i, SubIdxAtV v i
+  nodup : SubNodupV v
+
+theorem SubIdxAt.toV {s : State} {i : Nat} (h : SubIdxAt s i) : SubIdxAtV (subView s) i :=
+  ⟨h.q, h.node, h.plan, h.acc, h.allocSub, h.ownerAlloc, h.hourlyNoAlloc, h.nodeSubAlloc, h.payout, h.payoutRec,
+   h.payAcc, h.payNode, h.lease, h.payQ⟩
+
+theorem SubIdxAtV.toS {s : State} {i : Nat} (h : SubIdxAtV (subView s) i) : SubIdxAt s i :=
+  ⟨h.q, h.node, h.plan, h.acc, h.allocSub, h.ownerAlloc, h.hourlyNoAlloc, h.nodeSubAlloc, h.payout, h.payoutRec,
+   h.payAcc, h.payNode, h.lease, h.payQ⟩
+
+theorem SubIdx.toV {s : State} (h : SubIdx s) : SubIdxV (subView s) := ⟨fun i => (h.at i).toV, h.nodup⟩
+
+theorem SubIdxV.toS {s : State} (h : SubIdxV (subView s)) : SubIdx s := SubIdx.of_at (fun i => (h.ids i).toS) h.nodup
+
+theorem SubIdxV.of_eq {s : State} {v : SubView} (e : subView s = v) (h : SubIdxV v) : SubIdx s := by
+  subst e; exact h.toS
+
+structure AgreeAtV (i : Nat) (v v' : SubView) : Prop where
+  subs : v'.subs.get i = v.subs.get i
+  subQ : ∀ t, v'.subQ.has (t, i) = v.subQ.has (t, i)
+  subForAcc : ∀ a, v'.subForAcc.has (a, i) = v.subForAcc.has (a, i)
+  subForNode : ∀ a, v'.subForNode.has (a, i) = v.subForNode.has (a, i)
+  subForPlan : ∀ p, v'.subForPlan.has (p, i) = v.subForPlan.has (p, i)
+  allocs : ∀ a, v'.allocs.has (i, a) = v.allocs.has (i, a)
+  payouts : v'.payouts.get i = v.payouts.get i
+  payQ : ∀ t, v'.payQ.has (t, i) = v.payQ.has (t, i)
+  payForAcc : ∀ a, v'.payForAcc.has (a, i) = v.payForAcc.has (a, i)
+  payForNode : ∀ a, v'.payForNode.has (a, i) = v.payForNode.has (a, i)
+  payForAccNode : ∀ a n, v'.payForAccNode.has (a, n, i) = v.payForAccNode.has (a, n, i)
+
+theorem SubIdxAtV.congr {i : Nat} {v v' : SubView} (h : AgreeAtV i v v') (hi : SubIdxAtV v i) : SubIdxAtV v' i := by
+  have h1 : v'.subs.has i = v.subs.has i := by unfold Tbl.has; rw [h.subs]
+  have h2 : v'.payouts.has i = v.payouts.has i := by unfold Tbl.has; rw [h.payouts]
+  obtain ⟨a1, a2, a3, a4, a5, a6, a7, a8, a9, a10, a11, a12, a13, a14⟩ := hi
+  constructor <;>
+    simp only [h.subs, h.subQ, h.subForAcc, h.subForNode, h.subForPlan, h.allocs, h.payouts, h.payQ, h.payForAcc,
+      h.payForNode, h.payForAccNode, h1, h2] <;> assumption
+
+theorem SubIdxV.local {v v' : SubView} (j : Nat) (hi : SubIdxV v) (hoff : ∀ i, i ≠ j → AgreeAtV i v v')
+    (hat : SubIdxAtV v' j) (hn : SubNodupV v') : SubIdxV v' := by
+  refine ⟨fun i => ?_, hn⟩
+  by_cases e : i = j
+  · subst e; exact hat
+  · exact (hi.ids i).congr (hoff i e)
+
+
+theorem pendingHourlyV {v : SubView} {sub sub' : Sub} {p p' : Payout} {j : Nat} {t' : Time} (hi : SubIdxV v)
+    (hsub : v.subs.get j = some sub) (hst : sub.status = .StatusActive) (hp : v.payouts.get j = some p)
+    (s1 : sub'.addr = sub.addr) (s2 : sub'.kind = sub.kind) (s3 : sub'.inactiveAt = t') (s4 : sub'.status = .StatusInactivePending)
+    (p1 : p'.addr = p.addr) (p2 : p'.node = p.node) (p3 : p'.hours = p.hours) :
+    SubIdxV { v with subs := v.subs.set j sub',
+                     subQ := (v.subQ.erase (sub.inactiveAt, j)).set (t', j) (),
+                     payForAccNode := v.payForAccNode.erase (p.addr, p.node, j),
+                     payQ := v.payQ.erase (p.nextAt, j),
+                     payouts := v.payouts.set j p' } := by
+  refine SubIdxV.local j hi ?_ ?_ ?_
+  · intro i hne
+    constructor <;> intros <;> simp [Tbl.has_set, Tbl.has_erase, Tbl.get_set, Tbl.get_erase, hne, Ne.symm hne]
+  · obtain ⟨a1, a2, a3, a4, a5, a6, a7, a8, a9, a10, a11, a12, a13, a14⟩ := hi.ids j
+    have hsh : v.subs.has j = true := Tbl.has_of_get hsub
+    have hph : v.payouts.has j = true := Tbl.has_of_get hp
+    simp [hsub, hp, hsh, hph, hst] at a1 a2 a3 a4 a5 a6 a7 a8 a9 a10 a11 a12 a13 a14
+    have k1 : isHourly sub' = isHourly sub := by unfold isHourly; rw [s2]
+    have k2 : isPlanSub sub' = isPlanSub sub := by unfold isPlanSub; rw [s2]
+    constructor <;> intros <;>
+      simp_all [Tbl.has_set, Tbl.has_erase, Tbl.get_set, Tbl.get_erase, Sub.hourlyOn] <;> grind
+  · obtain ⟨n1, n2, n3, n4, n5, n6, n7, n8, n9, n10, n11⟩ := hi.nodup
+    nodup_tac
+
+theorem pendingPlainV {v : SubView} {sub sub' : Sub} {j : Nat} {t' : Time} (hi : SubIdxV v)
+    (hsub : v.subs.get j = some sub) (hh : isHourly sub = false)
+    (s1 : sub'.addr = sub.addr) (s2 : sub'.kind = sub.kind) (s3 : sub'.inactiveAt = t') :
+    SubIdxV { v with subs := v.subs.set j sub',
+                     subQ := (v.subQ.erase (sub.inactiveAt, j)).set (t', j) () } := by
+  refine SubIdxV.local j hi ?_ ?_ ?_
+  · intro i hne
+    constructor <;> intros <;> simp [Tbl.has_set, Tbl.has_erase, Tbl.get_set, Tbl.get_erase, hne, Ne.symm hne]
+  · obtain ⟨a1, a2, a3, a4, a5, a6, a7, a8, a9, a10, a11, a12, a13, a14⟩ := hi.ids j
+    have hsh : v.subs.has j = true := Tbl.has_of_get hsub
+    simp [hsub, hsh, hh] at a1 a2 a3 a4 a5 a6 a7 a8 a9 a10 a11 a12 a13 a14
+    have hpn : v.payouts.get j = none := Tbl.get_none_of_has a9
+    simp [hpn] at a10 a11 a12 a13 a14
+    have k1 : isHourly sub' = isHourly sub := by unfold isHourly; rw [s2]
+    have k2 : isPlanSub sub' = isPlanSub sub := by unfold isPlanSub; rw [s2]
+    constructor <;> intros <;>
+      simp_all [Tbl.has_set, Tbl.has_erase, Tbl.get_set, Tbl.get_erase, Sub.hourlyOn] <;> grind
+  · obtain ⟨n1, n2, n3, n4, n5, n6, n7, n8, n9, n10, n11⟩ := hi.nodup
+    nodup_tac
+
+theorem pendingDetach_subIdx {s s1 s' : State} {sub : Sub} {delay : Dur} {b : Bool} (hc : CountInv s) (hi : SubIdx s)
+    (hsub : s.subs.get sub.id = some sub) (hst : sub.status = .StatusActive)
+    (hf : SessFrame { s with subQ := s.subQ.erase (sub.inactiveAt, sub.id) } s1)
+    (h : detachPayout (subToPending s1 sub delay).1 sub b = .ok s') : SubIdx s' := by
+  unfold detachPayout at h
+  split at h
+  · simp only [bind_eq_ok, pure_eq_ok] at h
+    obtain ⟨p, hp, rfl⟩ := h
+    have hp' : s.payouts.get sub.id = some p := by
+      cases b <;> simp only [orPanic_eq_ok, orReject_eq_ok, if_true, if_false, Bool.false_eq_true] at hp <;>
+        (rw [hf] at hp; exact hp)
+    have hpid : p.id = sub.id := (hc.payouts _ _ hp').1
+    refine SubIdxV.of_eq ?_ (pendingHourlyV (t' := s.time + delay) hi.toV hsub hst hp' (sub' := (subToPending s1 sub delay).2)
+      (p' := { p with nextAt := zeroTime }) rfl rfl ?_ rfl rfl rfl rfl)
+    · rw [hf]; unfold detachPayoutRec; rw [hpid]; rfl
+    · rw [hf]; rfl
+  · rename_i hh
+    rw [pure_eq_ok] at h; subst h
+    refine SubIdxV.of_eq ?_ (pendingPlainV (t' := s.time + delay) hi.toV hsub (by simpa using hh) (sub' := (subToPending s1 sub delay).2)
+      rfl rfl ?_)
+    · rw [hf]; rfl
+    · rw [hf]; rfl
+
+theorem subCancel_subIdx {s s' : State} {frm : Addr} {id : Nat} (h : subCancel s frm id = .ok s')
+    (hc : CountInv s) (hi : SubIdx s) : SubIdx s' := by
+  unfold subCancel at h
+  simp only [bind_eq_ok, require_eq_ok, orReject_eq_ok] at h
+  obtain ⟨sub, hsub, _, hst, _, _, s1, h1, h2⟩ := h
+  have hid : sub.id = id := (hc.subs _ _ hsub).1
+  subst hid
+  exact pendingDetach_subIdx hc hi hsub (by simpa using hst) (subscriptionInactivePendingHook_frame h1) h2
+
+/-! ### `MsgAllocate` -/
+
+theorem allocateV {v : SubView} {sub : Sub} {j : Nat} {frm toA : Addr} {fa ta : Alloc} (hi : SubIdxV v)
+    (hsub : v.subs.get j = some sub) (hpl : isPlanSub sub = true) (hfrm : frm = sub.addr) :
+    SubIdxV { v with subForAcc := if (v.allocs.get (j, toA)).isNone then v.subForAcc.set (toA, j) () else v.subForAcc,
+                     allocs := (v.allocs.set (j, frm) fa).set (j, toA) ta } := by
+  have hh : isHourly sub = false := by
+    unfold isPlanSub at hpl; unfold isHourly; split at hpl <;> simp_all
+  refine SubIdxV.local j hi ?_ ?_ ?_
+  · intro i hne
+    constructor <;> intros <;> (try split) <;> simp [Tbl.has_set, Tbl.has_erase, Tbl.get_set, Tbl.get_erase, hne, Ne.symm hne]
+  · obtain ⟨a1, a2, a3, a4, a5, a6, a7, a8, a9, a10, a11, a12, a13, a14⟩ := hi.ids j
+    have hsh : v.subs.has j = true := Tbl.has_of_get hsub
+    simp [hsub, hsh, hh, hpl] at a1 a2 a3 a4 a5 a6 a7 a8 a9 a10 a11 a12 a13 a14
+    cases hto : v.allocs.get (j, toA) with
+    | none =>
+      have hto' : v.allocs.has (j, toA) = false := Tbl.has_false_of_get hto
+      constructor <;> intros <;>
+        simp_all [Tbl.has_set, Tbl.has_erase, Tbl.get_set, Tbl.get_erase, Sub.hourlyOn] <;> grind
+    | some old =>
+      have hto' : v.allocs.has (j, toA) = true := Tbl.has_of_get hto
+      constructor <;> intros <;>
+        simp_all [Tbl.has_set, Tbl.has_erase, Tbl.get_set, Tbl.get_erase, Sub.hourlyOn] <;> grind
+  · obtain ⟨n1, n2, n3, n4, n5, n6, n7, n8, n9, n10, n11⟩ := hi.nodup
+    refine ⟨?_, ?_, ?_, ?_, ?_, ?_, ?_, ?_, ?_, ?_, ?_⟩ <;> (try split) <;>
+      (repeat' first | assumption | apply Tbl.nodup_set | apply Tbl.nodup_erase)
+
+theorem subAllocate_subIdx {s s' : State} {frm toA : Addr} {id : Nat} {bytes : Int}
+    (h : subAllocate s frm id toA bytes = .ok s') (hc : CountInv s) (hi : SubIdx s) : SubIdx s' := by
+  unfold subAllocate at h
+  simp only [bind_eq_ok, pure_eq_ok, require_eq_ok, orReject_eq_ok] at h
+  obtain ⟨sub, hsub, _, hpl, _, hfrm, fa, hfa, _, hne, g, _, u, _, av, _, _, _, fg, _, _, _, _, _, rfl⟩ := h
+  obtain ⟨hf1, hf2, _⟩ := hc.allocs _ _ _ hfa
+  have hfrm' : frm = sub.addr := by simpa using hfrm
+  cases hto : s.allocs.get (id, toA) with
+  | none =>
+    refine SubIdxV.of_eq ?_ (allocateV (j := id) (frm := frm) (toA := toA) (fa := { fa with granted := fg })
+      (ta := { id := id, addr := toA, granted := bytes, used := 0 }) hi.toV hsub hpl hfrm')
+    simp only [subView_emit, setAllocation, subView_allocs, hto, Option.getD_none, Option.isNone_none, if_true, hf1, hf2]
+    rfl
+  | some ta =>
+    obtain ⟨ht1, ht2, _⟩ := hc.allocs _ _ _ hto
+    refine SubIdxV.of_eq ?_ (allocateV (j := id) (frm := frm) (toA := toA) (fa := { fa with granted := fg })
+      (ta := { ta with granted := bytes }) hi.toV hsub hpl hfrm')
+    simp only [subView_emit, setAllocation, subView_allocs, hto, Option.getD_some, Option.isNone_some, if_false, hf1, hf2, ht1, ht2, Bool.false_eq_true]
+    rfl
 
 end Hub.Model
